@@ -110,11 +110,13 @@ def run_impl(impl, case):
     """all requests of a case on the real connection; returns [(pre AbsConn, sr, event, declined, eff, post)]"""
     a, sr, declined = make_abs(case)
     steps = []
-    for i in range(case.get("repeat", 1)):
+    rep = case.get("repeat", 1)
+    for i in range(rep):
         ev = request(a, case["b"], case["e"], T0 + 1000 * (i + 1))
         eff, post = impl.step(a, sr, ev)
         steps.append((a, sr, ev, declined, eff, post))
-        a = S.parse_conn_tokens(post)
+        if i + 1 < rep:
+            a = S.parse_conn_tokens(post)
     return steps
 
 
@@ -440,13 +442,13 @@ def correspondence(ctx):
         if ctx.tier == "thorough":
             rule = ("complete: every journal of length <= 3 over the 11 slot kinds x every (b, e) in [-1, len+2]^2 x {ACTIVE, "
                     "RESENDREQ_AWAITING}; every journal of length 4 and 5 over the 6 slot classes (the session type of an 's' slot "
-                    "rotates through all 6) x every (b, e) x ACTIVE, and x RESENDREQ_AWAITING for length 4 and every 3rd journal "
-                    "of length 5; + 20000 sampled cases (length <= 5, all 11 kinds, counters 1 / 7 / 2^32, filter modes, 1-3 "
+                    "rotates through all 6) x every (b, e) x ACTIVE, and x RESENDREQ_AWAITING for length 4 and every 5th journal "
+                    "of length 5; + 10000 sampled cases (length <= 5, all 11 kinds, counters 1 / 7 / 2^32, filter modes, 1-3 "
                     "requests in sequence)")
             n += run_both(ctx, impl, drv, enum_cases(FULL, range(0, 4)), stats, dis, impl_fail)
             n += run_both(ctx, impl, drv, enum_cases(RED, [4]), stats, dis, impl_fail)
-            n += run_both(ctx, impl, drv, enum_cases(RED, [5], awaiting_every=3), stats, dis, impl_fail)
-            n += run_both(ctx, impl, drv, sample_cases(ctx.rng, 20000, 5), stats, dis, impl_fail)
+            n += run_both(ctx, impl, drv, enum_cases(RED, [5], awaiting_every=5), stats, dis, impl_fail)
+            n += run_both(ctx, impl, drv, sample_cases(ctx.rng, 10000, 5), stats, dis, impl_fail)
             exhaustive = True
         else:
             rule = ("complete for journals of length <= 2 over the 11 slot kinds x every (b, e) in [-1, len+2]^2 x {ACTIVE, "
